@@ -83,13 +83,15 @@ def plan(rnd, max_len):
 
 
 def run(seed, local_max, peer_max, specs=None, timeout=3600, delivery='random', nassoc=1,
-        senders=1, fine=None):
+        senders=1, fine=None, chatty=0):
     """-> dict: world, assocs = [dict(peer, sends, result, user tasks)], and for nassoc == 1 the
     flat keys peer/sends/result/user for the single association.
 
     nassoc > 1: that many ClientAEs/associations at the same time (each to its own scripted
     acceptor).  senders > 1: that many caller threads share ONE association object.
-    fine: set of function names for line-level pre-emption (None = off)."""
+    fine: set of function names for line-level pre-emption (None = off).
+    chatty = k > 0: full-duplex traffic - the peer sends a small complete message of its own for
+    every k-th P-DATA-TF PDU it reads, i.e. while the entity is in the middle of its messages."""
     from pynetdicom2 import applicationentity, sopclass, dimsemessages
     from . import preempt
     rnd = random.Random('ds/%s' % seed)
@@ -107,8 +109,16 @@ def run(seed, local_max, peer_max, specs=None, timeout=3600, delivery='random', 
         all_specs = []
         for a_i in range(nassoc):
             addr = (ADDR[0], ADDR[1] + a_i)
-            world.serve_peer(addr, lambda sock: peers.ScriptedAcceptor(world.sim, sock,
-                                                                       max_length=peer_max))
+            seen = {'n': 0}
+
+            def on_pdu(peer_, p_, seen=seen):
+                seen['n'] += 1
+                if seen['n'] % chatty == 0:
+                    peer_.send_message(1, {0x0002: rc.VERIFICATION, 0x0100: 0x8030,
+                                           0x0120: seen['n'] & 0xffff, 0x0800: rc.NO_DATASET,
+                                           0x0900: 0}, max_length=65536)
+            world.serve_peer(addr, lambda sock, on_pdu=on_pdu: peers.ScriptedAcceptor(
+                world.sim, sock, max_length=peer_max, on_pdu=on_pdu if chatty else None))
             ae = world.make_ae(applicationentity.ClientAE, 'CLI%d' % a_i, [rc.IMPLICIT_LE],
                                local_max)
             ae.timeout = timeout
@@ -177,6 +187,15 @@ def run(seed, local_max, peer_max, specs=None, timeout=3600, delivery='random', 
                     rec['users'] += extra
                     send_all(a, rec['specs'][0], 'a%ds0' % a_i)
                     world.sim.wait(lambda: all(t.done for t in extra), 600.0, 'join')
+                    if chatty:
+                        # let everything go out, then take what the peer has sent meanwhile
+                        # (leaving the association looks at the first thing that arrives)
+                        world.sim.wait(lambda: a.dul.from_service_user.empty() and
+                                       a.dul.dimse_gen is None, 900.0, 'flush')
+                        world.sim.sleep(1.0)
+                        while not a.dul.to_service_user.empty():
+                            rec['result'].setdefault('received', []).append(
+                                a.dul.to_service_user.get(False))
                 rec['result']['done'] = True
             rec['users'].append(world.spawn(user, 'user%d' % a_i))
         world.run(tmax=timeout + 100)
